@@ -646,4 +646,4 @@ pub fn run(rep: &Report) {
     rep.floor("prompt histories run", rep.counter("prompt histories run"), 600);
 }
 
-pub const RULE: &str = "random terminating structured programs (jumps, counted loops, procedures, macro uses, print statements, INT 21h/2 character output) in four stepping modes: -i flag, trap flag set (and possibly cleared / set again later) through POPF, INT 3 breakpoints at random places, -i plus INT 3; each has a trigger-free twin with the same lines and instruction count. Runs per program: the twin plain; the stepped program with every prompt answered by a spelling of 'next'; three scripted prompt histories mixing n/next spellings, print commands, garbage, ending by q/quit, by end of input (also in the middle of a line) or by program completion. Oracle: (transparency) stdout with prompt artefacts removed and the final registers/flags (trap bit masked)/full memory equal the plain twin's; (one prompt per instruction) between consecutive hook records there is exactly one prompt when stepping is active for a program instruction, one more after an INT 3, none for the driver's appended hlt, and the announced line number is the generator-known line of that instruction; (history model) the hook-record sequence under a script equals the prefix predicted by the model: print/garbage never advance, next advances exactly one instruction, quit and end of input stop without executing anything further, prompts shown = commands read (+1 at end of input); no run may abort or spin (output cap 4 MiB with a watchdog). Fixed edge scenarios cover programs of 0/1 instructions, TF set by the last instruction, INT 3 last, quit/EOF at the first prompt, and a stdin on which every read fails. Distinct = (mode, prompt/record count class) and (mode, ending kind, stop position, print-command count). -i twins whose program reads console input (INT 21h AH=1 / AH=0Ah), the stepped run's script interleaved exactly from the plain run's trace; answers and garbage lines of 4 KiB..70 KB; scale variants (line numbers beyond 255 / 65535, columns beyond 255).";
+pub const RULE: &str = "random terminating structured programs (jumps, counted loops, procedures, macro uses, print statements, INT 21h/2 character output) in four stepping modes: -i flag, trap flag set (and possibly cleared / set again later) through POPF, INT 3 breakpoints at random places, -i plus INT 3; each has a trigger-free twin with the same lines and instruction count. Runs per program: the twin plain; the stepped program with every prompt answered by a spelling of 'next'; three scripted prompt histories mixing n/next spellings, print commands, garbage, ending by q/quit, by end of input (also in the middle of a line) or by program completion. Oracle: (transparency) stdout with prompt artefacts removed and the final registers/flags (trap bit masked)/full memory equal the plain twin's; (one prompt per instruction) between consecutive hook records there is exactly one prompt when stepping is active for a program instruction, one more after an INT 3, none for the driver's appended hlt, and the announced line number is the generator-known line of that instruction; (history model) the hook-record sequence under a script equals the prefix predicted by the model: print/garbage never advance, next advances exactly one instruction, quit and end of input stop without executing anything further, prompts shown = commands read (+1 at end of input); no run may abort or spin (output cap 4 MiB with a watchdog). Fixed edge scenarios cover programs of 0/1 instructions, TF set by the last instruction, INT 3 last, quit/EOF at the first prompt, and a stdin on which every read fails. Distinct = (mode, prompt/record count class) and (mode, ending kind, stop position, print-command count). -i twins whose program reads console input (INT 21h AH=1 / AH=0Ah), the stepped run's script interleaved exactly from the plain run's trace; answers and garbage lines of 4 KiB..70 KB; scale variants (line numbers beyond 255 / 65535, columns beyond 255). A prompt line that is not valid UTF-8, then a print (must be answered) and q (must end the run), under -i, trap flag and INT 3.";
